@@ -10,7 +10,7 @@ import vlib, enginelib as E, enginechk as K
 SCHEDS = [None, lambda r: "defer:%d" % r.randint(0, 999), lambda r: "mixed:%d" % r.randint(0, 999)]
 
 
-def one_history(chk, sess, lines, tag, origin):
+def one_history(chk, sess, lines, tag, origin, model=True):
     """Runs one history on both sides; reports violations. Returns True if everything agreed."""
     lines = K.with_fresh(lines)
     r = sess.run(lines, tag)
@@ -30,6 +30,9 @@ def one_history(chk, sess, lines, tag, origin):
         rr = sess.run(small, tag + "-min")
         chk.violation(bad[0][0], bad[0][1], dict(scenario=small, original_scenario=lines, implementation=rr["out"], oracle="fresh engine", origin=origin),
                       found_input=True, broken="incremental == fresh on the implementation")
+    if not model:
+        chk.count(None, n=sum(1 for x in builds if x["hdr"] != "restart"))
+        return ok
     mo = sess.model_run(r)
     a, b = E.canon_pair(r["out"], mo)
     if a != b:
@@ -62,10 +65,37 @@ def corpus():
     return out
 
 
+def failed_build_family(chk, sess, n):
+    """Histories with an earlier FAILED (cancelled) build, in one engine or continued by a new engine over the database: every later
+    successful build must still equal a brand-new engine (oracle only: the cancelled build itself is schedule dependent; see C05)."""
+    import props.c05 as c05
+    for i in range(n):
+        rng = random.Random(chk.rng.random())
+        seed = rng.random()
+        for sched, cancel in c05.cancel_variants(rng, 2):
+            if sched.startswith("threads"):
+                continue
+            L = c05.make_history(random.Random(seed), sched, cancel)
+            r = sess.run(L, "fb%d" % (i % 20))
+            if r["rc"] != 0:
+                chk.violation("driver-crash", "engine_driver exited with status %s" % r["rc"], dict(scenario=L, stderr=r["err"][-1500:]), found_input=True)
+                continue
+            bad = K.oracle_c01(K.parse_impl(r["out"]))
+            if bad:
+                key = bad[0][0] + ("-after-failed-build" if not c05.window_suspects_in(L, r["out"]) else "-discovered-window")
+                chk.violation(key, bad[0][1], dict(scenario=L, implementation=r["out"], oracle="fresh engine"), found_input=True,
+                              broken="incremental == fresh after a failed build")
+            chk.count(("fb", i) if any("cancelled" in l for l in r["out"]) else None, n=sum(1 for l in r["out"] if l.startswith("build ")))
+
+
 def run(chk):
     sess = K.Session(chk)
     pr = chk.proof_gate()
     n = chk.n(150, 6000)
+    failed_build_family(chk, sess, chk.n(25, 800))
+    for nn in range(0, 14):        # corpus: a failed build must persist its iteration (stale for ever after a restart otherwise)
+        one_history(chk, sess, ["db 1", "rule 0 sig=0 obs=1", "rule 4 sig=0 obs=0 req=0", "rule 5 sig=0 obs=0 req=4", "rule 7 sig=0 obs=0 req=5", "set 0 1", "build 7", "set 0 2",
+                                "build 7 sched=sync cancel=cb:%d" % nn, "restart", "set 0 3", "build 7", "build 5"], "corpus-fb", "corpus iteration-persisted", model=False)
     stats = dict(histories=0, with_db=0, with_restart=0, with_rule_edit=0, sched={})
     for i, L in enumerate(corpus()):
         one_history(chk, sess, L, "corpus%d" % i, "corpus")
